@@ -11,8 +11,8 @@ COMMON_NOTE = (
     "Print Assumptions is audited on each run and must be 'Closed under the global context' (no axioms, no Admitted); "
     "extraction via ExtrOcamlBasic+ExtrOcamlString only with Z/Q kept as extracted inductives; tools/translate*.py "
     "(regenerate coq/gen/*.v from /repo on every run, fail closed: data tables, regexes, cache keys, write effects, and the bodies of the "
-    "calendar helpers and of the Duration and TimeRecurrence methods, which are proved equal to the model); the rest of the hand-written "
-    "Gallina model (TimePoint methods, parsers, dumper, CLI) is tied to the code by the correspondence run (same cases on the extracted "
+    "calendar helpers, of the TimePoint arithmetic/constructor/truncated-addition methods and of the Duration and TimeRecurrence methods, which are proved equal to the model); the rest of the hand-written "
+    "Gallina model (parsers, dumper, strftime, CLI, text forms) is tied to the code by the correspondence run (same cases on the extracted "
     "model and on the real package), so agreement outside the explored cases is assumed there; CPython int/float/re/str-formatting are "
     "modelled, not verified. ")
 
@@ -96,7 +96,7 @@ CLAIMED = {
               "and just outside its range per mode and year type through the constructor and the text notations, and a malformed stream (mutations, "
               "splices, noise incl. non-ASCII digits) for the three parsers: a valid object or a ValueError-derived error, never another exception, "
               "never a hang (10 s)."),
-        note=("The duration and recurrence parsers are judged on the implementation only in this check (duration text is modelled under C10); "
+        note=("Props/C09Code.v: the bodies of TimePoint.__init__, TimePoint._check_bounds (with _bounds_checker) and TimeZone.__init__ are translated from /repo on every run (gen/GenCode7.v) and proved to leave exactly the point the model's construct builds, or raise BadInputError exactly where construct / check_bounds / valid_zone refuse; the three 'accepts iff Spec-valid' statements are also proved of the translated constructor itself. The duration and recurrence parsers are judged on the implementation only in this check (duration text is modelled under C10); "
               "implicit CPython exceptions and Unicode digits are covered by the malformed stream, not by a theorem; 'never a hang' is a per-call "
               "time limit, with known finding F8 (astronomical repetition counts)."),
         technique="Coq proof (constructor accepts iff Spec-valid; parser results valid) + boundary enumeration + malformed-input correspondence",
@@ -125,7 +125,7 @@ CLAIMED = {
               "<= 28, day of year <= 360) without time fields (C20_day_least) or with an hour and optional minute/second (C20_day_time_least): "
               "the result is the least match, valid, in the point's offset (and idempotent); T24 runs to the loop bound and the hour-less "
               "day+minute target is not least (refuted statements = known findings F8b, F10)."),
-        note=("Props/C20Ext.v extends this to week+weekday (week 53 included; 52 in the 360-day calendar, the constructor's own bound since fix F15), day of month "
+        note=("Props/C20Code.v: the bodies of add_truncated, get_truncated_properties and the truncated branch of __add__ (both operand orders) are translated from /repo on every run (gen/GenCode6.v) and proved to return the model's result for every sufficient fuel, to be still looping where the model says Hang (F8b, F11) and to raise where it says Err. Props/C20Ext.v extends this to week+weekday (week 53 included; 52 in the 360-day calendar, the constructor's own bound since fix F15), day of month "
               "29-31, day of year 361-366, truncated points carrying their own UTC offset (fields read in that offset) and both operand orders: no hang within the "
               "proven loop bounds, valid, least match, idempotent. Props/C20Tables.v ties the week bound to the set_mode expression translated from the source. "
               "Fractional hour/minute forms of the full point are the float regime (known finding F11)."),
